@@ -653,6 +653,9 @@ static int run_coldstart(uint64_t seed, int threads) {
   std::vector<std::thread> th;
   for (int t = 0; t < threads; t++) th.emplace_back([&, t] {
     while (!go.load()) {}
+    // odd threads start with a dual-mapped allocator: the dual-mapping strategy / memfd / hardened-runtime caches are cold as well
+    JitAllocator::CreateParams dp; dp.options = (t & 1) ? JitAllocatorOptions::kUseDualMapping : JitAllocatorOptions::kUseLargePages;
+    { JitAllocator da(&dp); JitAllocator::Span ds; if (da.alloc(Out(ds), 128) == Error::kOk) da.release(ds.rx()); }
     JitRuntime rt;
     feat[size_t(t)] = uint32_t(fnv(&rt.cpu_features(), sizeof(CpuFeatures)));
     pg[size_t(t)] = VirtMem::info().page_size;
